@@ -170,7 +170,7 @@ func (g *genCfg) pick(rng *rand.Rand, o, d *Obj) (Call, string) {
 			return Call{"op": "SetFIFO", "b": rng.Intn(3) == 0}, "st"
 		case "SetOpt":
 			return Call{"op": "SetOpt", "f": []string{"paren", "fold", "nspad", "lonce", "neg", "fwd", "ronly", "nnest"}[rng.Intn(8)],
-				"m": []string{"on", "off", "toggle"}[rng.Intn(3)]}, "st"
+				"m": []string{"on", "off", "toggle"}[rng.Intn(3)], "dep": rng.Intn(3) == 0}, "st"
 		case "SetIdxOpt":
 			return Call{"op": "SetOpt", "f": idxFlags[rng.Intn(2)], "m": []string{"on", "off", "toggle"}[rng.Intn(3)]}, "st"
 		case "SetErr":
